@@ -311,6 +311,8 @@ func run(c *mc.Ctx) {
 			checkR(w, "RistrettoPoint.Neg", func() *curve.RistrettoPoint { return nrr().Neg(rp(p.P)) }, el.P.Neg(), d("ristretto Neg"), cas)
 			w.Eval("reps/ristretto", nt)
 		}
+		s.marshalOverwrite(w, p, cas)
+		w.Eval("reps/returned-slices", nt)
 		if i%37 == 0 {
 			w.Sample(map[string]string{"op": "reps", "point": pname(p)})
 		}
@@ -637,6 +639,12 @@ func run(c *mc.Ctx) {
 	// ---------------------------------------------------------------- (vi) operation histories of the stateful precomputed objects
 	s.histories(c)
 	lap("histories")
+
+	s.specialReps(c)
+	lap("special-representations")
+	// ---------------------------------------------------------------- (vii) memory handed out by the package-level values (last: process-wide state)
+	s.returnedMemory(c)
+	lap("returned-memory")
 
 	if c.Rep.NViolations > 0 {
 		return // a violation is being reported; a panicking case may not have reached its accounting, so the guards would only add noise
